@@ -906,8 +906,13 @@ pub fn check(rep: &mut Report) {
     };
     let base_a = base_a();
     let mut cases = build(thorough);
+    // the C02 program space: thorough tier in full; the quick tier keeps its definition families
+    // (annotated lets, functions, unit and dimension definitions) and drops the plain expressions,
+    // whose operator shapes the nesting families above cover
     for cse in build_cases(&w, thorough) {
-        cases.push(c("C02 program space", cse.code));
+        if thorough || cse.code.contains('\n') || cse.code.starts_with("let ") || cse.code.starts_with("fn ") || cse.code.starts_with("unit ") || cse.code.starts_with("dimension ") {
+            cases.push(c("C02 program space", cse.code));
+        }
     }
     // C09 expression space over its scaffold session + the scaffold definitions themselves
     let defs = c09::scaffold();
